@@ -13,7 +13,7 @@ import (
 
 var emptyVoucherStr = gen.VoucherStr(datatransfer.TypedVoucher{})
 
-func gen0(s chanSpec) string                          { return gen.VoucherStr(s.Voucher) }
+func gen0(s chanSpec) string                        { return gen.VoucherStr(s.Voucher) }
 func fmtVoucher(v datatransfer.TypedVoucher) string { return gen.VoucherStr(v) }
 
 // drawSpec draws a channel description. rich selects arbitrary IPLD values.
